@@ -172,3 +172,20 @@ def model_to_dict(model, limit=60):
         except Exception:  # pragma: no cover
             pass
     return out
+
+
+def cross_check(hyps, goal, timeout_ms=5000):
+    """Second opinions on a proved obligation: {'z3-4.8': status, 'cvc5': status, 'quantifier_free': bool}."""
+    out = {}
+    try:
+        smt2 = to_smt2(hyps, goal)
+    except Exception as e:  # dump problems are not verdicts
+        return {"error": repr(e)[:100]}
+    out["quantifier_free"] = "forall" not in smt2 and "exists" not in smt2
+    for name, cmd in (("z3-4.8", ["/usr/bin/z3", f"-T:{max(1, timeout_ms // 1000)}"]), ("cvc5", ["/usr/bin/cvc5", f"--tlimit={timeout_ms}"])):
+        try:
+            st, ms = _run_external(cmd, smt2, timeout_ms / 1000)
+        except Exception:
+            st = "unknown"
+        out[name] = st
+    return out
